@@ -572,6 +572,8 @@ pub enum ReplayOutcome {
     Pass,
     Fail(Fail),
     Crash(String),
+    /// killed after this many seconds
+    Timeout(u64),
 }
 
 /// Replays a file in a child process (crash-safe)
@@ -581,7 +583,26 @@ pub fn replay_in_child(path: &Path, strict: bool) -> ReplayOutcome {
     if strict {
         cmd.arg("--strict");
     }
-    let out = cmd.output().expect("spawn replay");
+    // a replay that does not come back is killed (FV_REPLAY_TIMEOUT_S, default 300 s)
+    let limit = std::env::var("FV_REPLAY_TIMEOUT_S")
+        .ok()
+        .and_then(|s| s.parse::<u64>().ok())
+        .unwrap_or(300);
+    cmd.stdout(std::process::Stdio::piped()).stderr(std::process::Stdio::piped());
+    let mut child = cmd.spawn().expect("spawn replay");
+    let t0 = Instant::now();
+    loop {
+        match child.try_wait().expect("wait for replay") {
+            Some(_) => break,
+            None if t0.elapsed() > Duration::from_secs(limit) => {
+                let _ = child.kill();
+                let _ = child.wait();
+                return ReplayOutcome::Timeout(limit);
+            }
+            None => std::thread::sleep(Duration::from_millis(20)),
+        }
+    }
+    let out = child.wait_with_output().expect("collect replay output");
     use std::os::unix::process::ExitStatusExt;
     if let Some(sig) = out.status.signal() {
         return ReplayOutcome::Crash(format!("killed by signal {sig}"));
@@ -663,6 +684,18 @@ pub fn parent<P: Prop>(tier: Tier, seed: u64) -> i32 {
             }
             (_, ReplayOutcome::Crash(c)) => {
                 violations.push(("crash".into(), c, f.display().to_string()));
+            }
+            // a repaired non-termination defect that is back
+            ("fixed", ReplayOutcome::Timeout(t)) if rf.sig.starts_with("did-not-return") => {
+                violations.push((
+                    rf.sig.clone(),
+                    format!("the call did not return within {t} s"),
+                    f.display().to_string(),
+                ));
+            }
+            (_, ReplayOutcome::Timeout(t)) => {
+                inconclusive = true;
+                notes.push(format!("replay of {name} did not finish within {t} s"));
             }
         }
     }
